@@ -219,6 +219,9 @@ async fn init_evidence(c: &mut Collection) -> Result<(), DBError> {
     c.create_btree_index_nx(&["content_digest"]).await?;
     c.create_btree_index_nx(&["generated_by"]).await?;
     c.create_btree_index_nx(&["corrected_by"]).await?;
+    // `?e EVIDENCE {status: ...}` is pushed into the index like the Assertion
+    // and Activity status patterns are, so the column needs one.
+    c.create_btree_index_nx(&["status"]).await?;
     c.create_btree_index_nx(&["observed_at"]).await?;
     c.create_bm25_index_nx(&["payload_inline"]).await?;
     Ok(())
